@@ -54,6 +54,10 @@ pub struct StreamSpec {
     pub hop: u8,
     /// handler delay before responding (ms)
     pub delay_ms: u16,
+    /// timed gap (virtual ms) before every body chunk and before the end of the body: a
+    /// slow-producing response (server-sent events, long poll)
+    #[serde(default)]
+    pub gap_ms: u16,
     /// client behaviour
     pub client: Client,
 }
@@ -84,20 +88,42 @@ struct ProgBody {
     pendings: Vec<u8>,
     next: usize,
     pending_left: u8,
+    gap_ms: u16,
+    sleep: Option<Pin<Box<tokio::time::Sleep>>>,
+    slept_for: usize,
+    ended: bool,
 }
 
 impl ProgBody {
     fn new(chunks: Vec<Bytes>, pendings: Vec<u8>) -> Self {
         let pl = pendings.first().copied().unwrap_or(0);
-        ProgBody { chunks, pendings, next: 0, pending_left: pl }
+        ProgBody { chunks, pendings, next: 0, pending_left: pl, gap_ms: 0, sleep: None, slept_for: usize::MAX, ended: false }
+    }
+    fn with_gap(mut self, gap_ms: u16) -> Self {
+        self.gap_ms = gap_ms;
+        self
     }
     fn poll_chunk(&mut self, cx: &mut Context<'_>) -> Poll<Option<Result<Bytes, std::io::Error>>> {
+        if self.gap_ms > 0 && self.slept_for != self.next {
+            let gap = self.gap_ms;
+            let sl = self.sleep.get_or_insert_with(|| Box::pin(tokio::time::sleep(Duration::from_millis(gap as u64))));
+            if std::future::Future::poll(sl.as_mut(), cx).is_pending() {
+                return Poll::Pending;
+            }
+            self.sleep = None;
+            self.slept_for = self.next;
+        }
         if self.pending_left > 0 {
             self.pending_left -= 1;
             cx.waker().wake_by_ref();
             return Poll::Pending;
         }
         if self.next >= self.chunks.len() {
+            // strict body: must not be polled again once it has returned `Ready(None)`
+            if self.ended {
+                panic!("response body polled again after it had returned Ready(None)");
+            }
+            self.ended = true;
             return Poll::Ready(None);
         }
         let b = self.chunks[self.next].clone();
@@ -149,6 +175,8 @@ struct StreamOut {
     ended: bool,
     error: Option<String>,
     reset_by_client: bool,
+    /// virtual ms since the start of the case at which the stream task finished
+    end_ms: u64,
 }
 
 pub fn run_case(cfg: &RunCfg, case: &Case) -> Verdict {
@@ -168,6 +196,20 @@ pub fn run_case(cfg: &RunCfg, case: &Case) -> Verdict {
     let window = case.window;
     let conn_window = case.conn_window;
     let n = case.streams.len();
+    // the delays the case itself asks for (handler delays, body gaps, stepwise capacity release)
+    // come on top of the virtual minute every non-starved stream gets
+    let own_delays_ms: u64 = case
+        .streams
+        .iter()
+        .map(|s| {
+            let bytes: u64 = s.chunks.iter().map(|c| *c as u64).sum();
+            let release = match s.client {
+                Client::Steps { step, delay_ms } => (bytes / step.max(1) as u64 + s.chunks.len() as u64 + 1) * delay_ms as u64,
+                _ => 0,
+            };
+            s.delay_ms as u64 + (s.chunks.len() as u64 + 1) * s.gap_ms as u64 + release
+        })
+        .sum();
     let fut = async move {
         let specs = specs2;
         let hspecs = specs.clone();
@@ -198,13 +240,17 @@ pub fn run_case(cfg: &RunCfg, case: &Case) -> Verdict {
                 b.insert_header(("x-stream", idx.to_string()));
                 let parts = body_parts(&s);
                 let total: usize = parts.iter().map(|p| p.len()).sum();
+                if s.hop & 32 != 0 {
+                    // a handler relaying an upstream header: the length of the body it attaches
+                    b.insert_header(("content-length", total.to_string()));
+                }
                 let res = b.finish().map_into_boxed_body();
                 let body: BoxBody = match s.kind {
                     Kind::Empty => BoxBody::new(()),
                     Kind::Bytes => BoxBody::new(Bytes::from(parts.concat())),
-                    Kind::Stream => BoxBody::new(BodyStream::new(ProgBody::new(parts, s.pendings.clone()))),
-                    Kind::Sized => BoxBody::new(SizedStream::new(total as u64, ProgBody::new(parts, s.pendings.clone()))),
-                    Kind::Custom => BoxBody::new(CustomBody(ProgBody::new(parts, s.pendings.clone()))),
+                    Kind::Stream => BoxBody::new(BodyStream::new(ProgBody::new(parts, s.pendings.clone()).with_gap(s.gap_ms))),
+                    Kind::Sized => BoxBody::new(SizedStream::new(total as u64, ProgBody::new(parts, s.pendings.clone()).with_gap(s.gap_ms))),
+                    Kind::Custom => BoxBody::new(CustomBody(ProgBody::new(parts, s.pendings.clone()).with_gap(s.gap_ms))),
                 };
                 Ok::<_, std::convert::Infallible>(res.set_body(body))
             }
@@ -228,6 +274,7 @@ pub fn run_case(cfg: &RunCfg, case: &Case) -> Verdict {
             let _ = connection.await;
         });
         let mut tasks = vec![];
+        let t_start = tokio::time::Instant::now();
         for (i, s) in specs.iter().enumerate() {
             let mut sr = match send_req.clone().ready().await {
                 Ok(s) => s,
@@ -240,11 +287,12 @@ pub fn run_case(cfg: &RunCfg, case: &Case) -> Verdict {
             };
             let client = s.client.clone();
             tasks.push(tokio::task::spawn_local(async move {
-                let mut out = StreamOut { status: None, headers: vec![], data: vec![], ended: false, error: None, reset_by_client: false };
+                let mut out = StreamOut { status: None, headers: vec![], data: vec![], ended: false, error: None, reset_by_client: false, end_ms: 0 };
                 let resp = match resp_fut.await {
                     Ok(r) => r,
                     Err(e) => {
                         out.error = Some(format!("response error: {e}"));
+                        out.end_ms = t_start.elapsed().as_millis() as u64;
                         return out;
                     }
                 };
@@ -286,6 +334,7 @@ pub fn run_case(cfg: &RunCfg, case: &Case) -> Verdict {
                                     if out.data.len() >= *after as usize {
                                         out.reset_by_client = true;
                                         drop(body);
+                                        out.end_ms = t_start.elapsed().as_millis() as u64;
                                         return out;
                                     }
                                 }
@@ -293,6 +342,7 @@ pub fn run_case(cfg: &RunCfg, case: &Case) -> Verdict {
                         }
                     }
                 }
+                out.end_ms = t_start.elapsed().as_millis() as u64;
                 out
             }));
         }
@@ -300,7 +350,7 @@ pub fn run_case(cfg: &RunCfg, case: &Case) -> Verdict {
         let mut outs = vec![];
         for (i, t) in tasks.into_iter().enumerate() {
             // a starved stream is not expected to finish; give everything else a virtual minute
-            match tokio::time::timeout(Duration::from_secs(60), t).await {
+            match tokio::time::timeout(Duration::from_millis(60_000 + own_delays_ms), t).await {
                 Ok(Ok(o)) => outs.push(Some(o)),
                 Ok(Err(e)) => return Err(format!("stream task {i} failed: {e}")),
                 Err(_) => outs.push(None),
@@ -317,14 +367,38 @@ pub fn run_case(cfg: &RunCfg, case: &Case) -> Verdict {
         RunEnd::Panicked(p) => return Verdict::failed(format!("panic: {p}")),
     };
     let multi_frame = case.streams.iter().any(|s| s.chunks.iter().any(|c| *c > case.window));
+    let idle_heavy = case.streams.iter().filter(|s| s.gap_ms >= 500 && !matches!(s.kind, Kind::Empty | Kind::Bytes)).count() >= 4;
     let v = Verdict::ok()
-        .nt(n >= 2 && (multi_frame || case.window <= 100))
+        .nt(n >= 2 && (multi_frame || case.window <= 100 || idle_heavy))
+        .class_if(idle_heavy, "four-or-more-idle-response-streams")
+        .class_if(case.conn_window <= 65_535, "default-connection-window")
+        .class_if(case.streams.iter().any(|s| s.hop & 32 != 0), "handler-set-content-length")
         .class_if(multi_frame, "chunk-larger-than-window")
         .class_if(case.window <= 100, "tiny-window")
         .class_if(case.streams.iter().any(|s| matches!(s.client, Client::Starve)), "starved-stream")
         .class_if(case.streams.iter().any(|s| matches!(s.client, Client::Reset { .. })), "client-reset")
         .class_if(case.streams.iter().any(|s| s.chunks.iter().any(|c| *c == 0)), "empty-chunk")
         .class_if(n >= 2, "concurrent-streams");
+    // timeliness independence: when every client keeps granting window without delay, released
+    // capacity returns in zero virtual time, so a stream ends as soon as its own handler and body
+    // program allow - whatever the other streams' programs are doing
+    let prompt_clients = case.streams.iter().all(|s| matches!(s.client, Client::Eager | Client::Reset { .. }) || matches!(s.client, Client::Steps { delay_ms: 0, .. }));
+    if prompt_clients {
+        for (i, (s, o)) in case.streams.iter().zip(outs.iter()).enumerate() {
+            let Some(o) = o else { continue };
+            let streams_body = !matches!(s.kind, Kind::Empty | Kind::Bytes);
+            let own = s.delay_ms as u64 + if streams_body { (s.chunks.len() as u64 + 1) * s.gap_ms as u64 } else { 0 };
+            if o.end_ms > own + 50 {
+                return v.fail_with(format!(
+                    "stream {i} of {n} finished at {} ms although its own handler and body program take {own} ms and every client grants window at once: it waited for another stream (stream window {}, connection window {}, other streams' gaps {:?})",
+                    o.end_ms,
+                    case.window,
+                    case.conn_window,
+                    case.streams.iter().map(|x| x.gap_ms).collect::<Vec<_>>()
+                ));
+            }
+        }
+    }
     for (i, (s, o)) in case.streams.iter().zip(outs.iter()).enumerate() {
         let want: Vec<u8> = body_parts(s).concat();
         let head = METHODS[s.method as usize % 3] == "HEAD";
@@ -402,8 +476,9 @@ fn stream_spec() -> impl Strategy<Value = StreamSpec> {
         proptest::collection::vec(prop_oneof![1 => Just(0u32), 4 => 1u32..200, 3 => 200u32..20_000, 1 => 20_000u32..120_000], 0..6),
         proptest::collection::vec(0u8..3, 1..4),
         any::<u16>(),
-        prop_oneof![4 => Just(0u8), 2 => 0u8..32],
+        prop_oneof![4 => Just(0u8), 2 => 0u8..64],
         prop_oneof![4 => Just(0u16), 1 => 1u16..50],
+        prop_oneof![6 => Just(0u16), 1 => 1u16..30, 1 => 100u16..3000],
         prop_oneof![
             4 => Just(Client::Eager),
             3 => (prop_oneof![Just(1u32), 1u32..100, 100u32..20_000], prop_oneof![2 => Just(0u16), 1 => 1u16..20]).prop_map(|(step, delay_ms)| Client::Steps { step, delay_ms }),
@@ -411,7 +486,7 @@ fn stream_spec() -> impl Strategy<Value = StreamSpec> {
             1 => (0u32..5000).prop_map(|after| Client::Reset { after }),
         ],
     )
-        .prop_map(|(method, status, kind, mut chunks, pendings, seed, hop, delay_ms, client)| {
+        .prop_map(|(method, status, kind, mut chunks, pendings, seed, hop, delay_ms, gap_ms, client)| {
             // empty chunks only make sense for streaming kinds; a Bytes body is what it is
             if matches!(kind, Kind::Bytes | Kind::Sized | Kind::Stream) {
                 // BodyStream / SizedStream filter empty chunks themselves; keep them in to check that
@@ -419,7 +494,7 @@ fn stream_spec() -> impl Strategy<Value = StreamSpec> {
             if matches!(kind, Kind::Empty) {
                 chunks.clear();
             }
-            StreamSpec { method, status, kind, chunks, pendings, seed, hop, delay_ms, client }
+            StreamSpec { method, status, kind, chunks, pendings, seed, hop, delay_ms, gap_ms, client }
         })
 }
 
@@ -447,6 +522,47 @@ fn case_strategy() -> impl Strategy<Value = Case> {
         })
 }
 
+/// 4-9 response streams whose bodies are idle for long stretches next to 1-2 streams that could
+/// finish at once, on a connection window as small as the protocol default.
+fn idle_case_strategy() -> impl Strategy<Value = Case> {
+    (
+        prop_oneof![Just(65_535u32), Just(16_384u32), Just(1u32 << 20)],
+        prop_oneof![3 => Just(65_535u32), 1 => Just(1u32 << 20)],
+        proptest::collection::vec(stream_spec(), 5..11),
+        1usize..3,
+    )
+        .prop_map(|(window, conn_window, mut streams, fast)| {
+            let n = streams.len();
+            for (i, s) in streams.iter_mut().enumerate() {
+                s.client = Client::Eager;
+                s.delay_ms = 0;
+                if i + fast >= n {
+                    // fast streams come last: a short body that is ready at once
+                    s.gap_ms = 0;
+                    s.method = 0;
+                    s.status = 200;
+                    s.kind = Kind::Bytes;
+                    s.chunks = vec![1 + (s.seed as u32 % 200)];
+                } else {
+                    s.gap_ms = 500 + s.seed % 3000;
+                    s.method = 0;
+                    s.status = 200;
+                    if matches!(s.kind, Kind::Empty | Kind::Bytes) {
+                        s.kind = Kind::Stream;
+                    }
+                    s.chunks.truncate(3);
+                    if s.chunks.is_empty() {
+                        s.chunks.push(10);
+                    }
+                    for c in s.chunks.iter_mut() {
+                        *c = (*c % 2000).max(1);
+                    }
+                }
+            }
+            Case { window, conn_window, streams }
+        })
+}
+
 pub fn run(cfg: &RunCfg) -> Report {
     let mut rep = Report::new("C08");
     rep.rule = "1-4 concurrent streams (GET/HEAD/POST) on one HTTP/2 connection served by the real HttpService over an in-memory duplex pipe; per stream: status 200/204/206/304/404, body Empty / Bytes / BodyStream / SizedStream / custom MessageBody with chunks of 0..120000 bytes (empty chunks, chunks larger than the window) and self-waking Pending patterns, user-set hop-by-hop headers (connection, keep-alive, transfer-encoding, upgrade, proxy-connection), handler delay; client: initial stream window 1/100/16384/65535/1 MiB/random, connection window 1-4 MiB, capacity released eagerly / in steps of 1..20000 bytes with 0-20 ms delays / never (starved stream) / stream reset after k bytes; \
@@ -460,7 +576,8 @@ pub fn run(cfg: &RunCfg) -> Report {
     ];
     runner::replay_pinned(&mut rep, cfg, &replay);
     runner::replay_regress(&mut rep, cfg, &replay);
-    explore(&mut rep, cfg, "streams", cfg.cases(40_000, 800_000), case_strategy, |c| run_case(cfg, c));
+    explore(&mut rep, cfg, "streams", cfg.cases(100_000, 2_000_000), case_strategy, |c| run_case(cfg, c));
+    explore(&mut rep, cfg, "idle-streams", cfg.cases(6_000, 120_000), idle_case_strategy, |c| run_case(cfg, c).class("idle-streams"));
     rep
 }
 
